@@ -251,7 +251,7 @@ def cmdSimCtx (c : SimCtx) (t : List String) : SimCtx × String :=
     | some (.keyboard buf ie l), some bs => ({ c with sim := { s with dev := s.dev.setKeyboard (.keyboard (buf ++ bs) ie l) } }, "ok")
     | some (.keyboard ..), none => bad
     | _, _ => (c, "nokb")
-  | ["lock", which, v] => match pb v with
+  | ["lock", which, v] => match (if v = "2" then some true else pb v) with   -- 2 = shared guard: try_write fails just the same
     | some v => match setLock s which v with
       | some s' => ({ c with sim := s' }, "ok")
       | none => bad
